@@ -254,8 +254,8 @@ func (p *peer) Dial(addr string, protoFunc ...ProtoFunc) (Session, *Status) {
 				oldConn.Close()
 			}
 			sess.changeStatus(statusOk)
-			AnywayGo(sess.startReadAndHandle)
 			p.sessHub.set(sess)
+			AnywayGo(sess.startReadAndHandle)
 			Infof("redial ok (network:%s, addr:%s, id:%s)", p.network, addr, sess.ID())
 			return true
 		}
@@ -263,8 +263,8 @@ func (p *peer) Dial(addr string, protoFunc ...ProtoFunc) (Session, *Status) {
 
 	Infof("dial ok (network:%s, addr:%s, id:%s)", p.network, addr, sess.ID())
 	sess.changeStatus(statusOk)
-	AnywayGo(sess.startReadAndHandle)
 	p.sessHub.set(sess)
+	AnywayGo(sess.startReadAndHandle)
 	return sess, nil
 }
 
@@ -293,8 +293,8 @@ func (p *peer) ServeConn(conn net.Conn, protoFunc ...ProtoFunc) (Session, *Statu
 	}
 	Infof("serve ok (network:%s, addr:%s, id:%s)", network, sess.RemoteAddr().String(), sess.ID())
 	sess.changeStatus(statusOk)
-	AnywayGo(sess.startReadAndHandle)
 	p.sessHub.set(sess)
+	AnywayGo(sess.startReadAndHandle)
 	return sess, nil
 }
 
